@@ -7,6 +7,8 @@ CONSTANTS
   UnOps = {"wrap1", "erswrap", "panic"}
   NOps = {"multi", "join", "sres", "stack", "coll", "panics"}
   SimSteps = 12
+  NilLike = {"nstack"}
+  Holey <- HoleyA
 INVARIANT SimSane
 CONSTRAINT SimEmit
 CHECK_DEADLOCK FALSE
